@@ -38,8 +38,8 @@ def dump_reload(data):
     s = io.StringIO()
     E["Parsers"].get_yaml_editor().dump(data, s)
     text = s.getvalue()
-    (docs, ok) = E["Parsers"].get_yaml_data(E["Parsers"].get_yaml_editor(), E["log"], text, literal=True)
-    return ok, docs, text
+    (doc, ok) = E["Parsers"].get_yaml_data(E["Parsers"].get_yaml_editor(), E["log"], text, literal=True)
+    return ok, doc, text
 
 
 # --------------------------------------------------------------- documents
@@ -71,7 +71,7 @@ class DocGen:
             return "&%s %s" % (name, s)
         return s
 
-    def value(self, depth):
+    def value(self, depth, in_seq=False):
         rng = self.rng
         r = rng.random()
         if depth >= self.max_depth or r < 0.48:
@@ -85,7 +85,7 @@ class DocGen:
             name = "c%d" % self.n
         if r < 0.72:
             out = pre + self.seq(depth)
-        elif r < 0.95 or not self.sets:
+        elif r < 0.95 or not self.sets or in_seq:
             out = pre + self.map(depth)
         else:
             return "!!set {%s}" % ", ".join(rng.sample(["x", "y", "z", "foo", "1"], rng.randint(1, 3)))
@@ -95,7 +95,7 @@ class DocGen:
 
     def seq(self, depth):
         n = self.rng.choice([0, 1, 2, 3, 3, 4, 5])
-        return "[%s]" % ", ".join(self.value(depth + 1) for _ in range(n))
+        return "[%s]" % ", ".join(self.value(depth + 1, in_seq=True) for _ in range(n))
 
     def map(self, depth):
         rng = self.rng
